@@ -1794,8 +1794,10 @@ get_function(CPPInstance *function, string description,
       (*ii).second = merge_parameter_names((*ii).second, function);
     }
 
-    // Also set the comment.
-    if (function->_leading_comment != nullptr) {
+    // Also set the comment, unless this is a declaration we have seen before
+    // (a MAKE_PROPERTY or MAKE_SEQ naming the function looks it up again).
+    if (function->_leading_comment != nullptr &&
+        (inserted || (*ii).second->_leading_comment != function->_leading_comment)) {
       string comment = trim_blanks(function->_leading_comment->_comment);
       if (!ifunction._comment.empty()) {
         ifunction._comment += "\n\n";
